@@ -1,0 +1,24 @@
+//go:build verif
+
+// Contracts for the govc verifier (/verif). Comment-only: this file contains no code.
+package transport
+
+//@ func SetConfig
+//@   props C19
+//@   assigns transport.cfg
+//@   ensures nopanic
+//@   ensures transport.cfg == arg0
+//@
+//@ func NewTransport
+//@   props C19
+//@   requires transport.cfg != nil
+//@   ensures nopanic
+//@   ensures result != nil && fresh(result)
+//@   ensures result.ResponseHeaderTimeout == transport.cfg.Proxy.ResponseHeaderTimeout
+//@   ensures result.IdleConnTimeout == transport.cfg.Proxy.IdleConnTimeout
+//@   ensures result.MaxIdleConnsPerHost == transport.cfg.Proxy.MaxConn
+//@   ensures isMethodValue(result.Dial, "(*net.Dialer).Dial")
+//@   ensures boundRecv(result.Dial, *net.Dialer).Timeout == transport.cfg.Proxy.DialTimeout
+//@   ensures boundRecv(result.Dial, *net.Dialer).KeepAlive == transport.cfg.Proxy.KeepAliveTimeout
+//@   ensures result.TLSClientConfig == tlscfg
+//@   ensures result.MaxIdleConns == 0 && result.MaxConnsPerHost == 0 && result.DisableKeepAlives == false
